@@ -21,4 +21,5 @@ def check(run):
     run.assumptions += ['stub: alloc::fmt::format -> String::new()']
     run.extra['explanation'] = 'Kani/CBMC over the real helpers for the finite product; MIR CFG of validate for the order propagation-before-check; native sweep (68 methods x 2 interfaces) confirms.'
     ksupport.decide(run, 'C10', SPECS, {'c10': native.sweep_c10})
+    pipeline.per_method_obligation(run)
     pipeline.order_obligations(run, ['set_up_oneway_interface', 'check_methods'])
